@@ -92,29 +92,32 @@ def basePrefix : Base → List Char
   | .b2 => ['0', 'b']
   | .b10 => []
 
-/-- `WriteIntegerToTextStream(value, stream, base, digit_grouping)` for
-`IntegralType = T`.  Integer arithmetic is mathematical (`Int`): for `value` in the
-range of `T` none of the C++ expressions overflows (`-(value + 1)` is the reason for the
-`lowest()` special case). -/
-def writeInt (T : IntTy) (x : Int) (base : Base) (grouping : Bool) : List Char :=
-  let b := base.toNat
+/-- The digits of `WriteIntegerToTextStream` (everything right of prefix and sign), for
+`IntegralType = T`, `b` = the numeric base.  Integer arithmetic is mathematical (`Int`/`Nat`):
+for `value` in the range of `T` none of the C++ expressions overflows (`-(value + 1)` is
+the reason for the `lowest()` special case). -/
+def writeBody (T : IntTy) (x : Int) (b : Nat) (grouping : Bool) : List Char :=
+  -- `if (value == 0) { buffer[next_char] = digits[0]; --next_char; }`
   let buf0 : List Char := if x = 0 then ['0'] else []
-  let body : List Char :=
-    if x < 0 then
-      if x = T.minVal then
-        -- `auto digit = -(value + 1) % base + 1; value = -(value + 1) / base;`
-        let m : Nat := (-(x + 1)).toNat
-        let digit := m % b + 1
-        let value := m / b
-        -- `if (digit == base) { digit = 0; ++value; }`
-        let digit' := if digit = b then 0 else digit
-        let value' := if digit = b then value + 1 else value
-        writeLoop b grouping value' 1 (digitChar digit' :: buf0)
-      else
-        writeLoop b grouping (-x).toNat 0 buf0
+  if x < 0 then
+    if x = T.minVal then
+      -- `auto digit = -(value + 1) % base + 1; value = -(value + 1) / base;`
+      let m : Nat := (-(x + 1)).toNat
+      let digit := m % b + 1
+      let value := m / b
+      -- `if (digit == base) { digit = 0; ++value; }`
+      let digit' := if digit = b then 0 else digit
+      let value' := if digit = b then value + 1 else value
+      writeLoop b grouping value' 1 (digitChar digit' :: buf0)
     else
-      writeLoop b grouping x.toNat 0 buf0
-  let s := basePrefix base ++ body
+      writeLoop b grouping (-x).toNat 0 buf0
+  else
+    writeLoop b grouping x.toNat 0 buf0
+
+/-- `WriteIntegerToTextStream(value, stream, base, digit_grouping)`: prefix, then sign
+(both pushed right-to-left after the digits). -/
+def writeInt (T : IntTy) (x : Int) (base : Base) (grouping : Bool) : List Char :=
+  let s := basePrefix base ++ writeBody T x base.toNat grouping
   if x < 0 then '-' :: s else s
 
 /-- The digit classification of `DecodeInteger` (`c - '0'`, `c - 'A' + 10`, `c - 'a' + 10`). -/
@@ -129,7 +132,7 @@ def decodeDigit (c : Char) : Option Nat :=
 `atStart` is `offset == 0` (true only for the very first character of a text without
 sign and prefix); `lo`/`hi` are `numeric_limits<IntType>::min()/max()`; the division is
 C++'s truncating `/` (`Int.tdiv`). -/
-def decodeLoop (lo hi : Int) (neg : Bool) (base : Int) : Bool → Int → List Char → Option Int
+def decodeLoop (lo hi : Int) (neg : Bool) (base : Nat) : Bool → Int → List Char → Option Int
   | _, acc, [] => some acc
   | atStart, acc, c :: cs =>
     if c = '_' then
@@ -138,13 +141,13 @@ def decodeLoop (lo hi : Int) (neg : Bool) (base : Int) : Bool → Int → List C
       match decodeDigit c with
       | none => none
       | some d =>
-        if base ≤ (d : Int) then none
+        if base ≤ d then none
         else if neg then
-          if acc < Int.tdiv (lo + d) base then none
-          else decodeLoop lo hi neg base false (acc * base - d) cs
+          if acc < Int.tdiv (lo + (d : Int)) (base : Int) then none
+          else decodeLoop lo hi neg base false (acc * (base : Int) - (d : Int)) cs
         else
-          if acc > Int.tdiv (hi - d) base then none
-          else decodeLoop lo hi neg base false (acc * base + d) cs
+          if acc > Int.tdiv (hi - (d : Int)) (base : Int) then none
+          else decodeLoop lo hi neg base false (acc * (base : Int) + (d : Int)) cs
 
 /-- Sign handling: a leading `-` is consumed only for signed types. -/
 def splitSign (T : IntTy) : List Char → Bool × List Char
@@ -153,7 +156,7 @@ def splitSign (T : IntTy) : List Char → Bool × List Char
 
 /-- Prefix handling: `0x`/`0X` ⇒ 16, `0b`/`0B` ⇒ 2, else 10 and nothing consumed.
 Third component: something was consumed. -/
-def splitBase : List Char → Int × List Char × Bool
+def splitBase : List Char → Nat × List Char × Bool
   | '0' :: c :: r =>
     if c = 'x' ∨ c = 'X' then (16, r, true)
     else if c = 'b' ∨ c = 'B' then (2, r, true)
